@@ -51,8 +51,13 @@ error (repair fixes/C11-2) -/
 theorem parseCigar_total (b : Bytes) : (parseCigar b).isPanic = false := by
   unfold parseCigar
   split
-  · rfl
-  · exact parseOps_total b.length b [] (Nat.le_refl _)
+  · rename_i h1
+    rw [index_of_lt _ b 0 (by omega)]
+    simp only
+    split
+    · rfl
+    · exact parseOpsFrom_total b b.length 0 [] (by omega)
+  · exact parseOpsFrom_total b b.length 0 [] (by omega)
 
 /-! ### CIGAR accessors: safe on EVERY CIGAR (so on every one ParseCigar or a BAM record yields) -/
 
@@ -77,31 +82,32 @@ theorem opString_total (t : Nat) : (opString t).isPanic = false := by
 theorem isValid_total (c : List CigarOp) (length : Int) : (cigarIsValidGo c length).isPanic = false :=
   cigarIsValidGo_total c length
 
-/-- `Cigar.Lengths`, `Record.End`, `Record.Len`, `Record.Bin`, `Cigar.IsValid` (the models C16 proves
-correct on the standard operations) return a value for EVERY CIGAR, including operation types 10..15 -/
-theorem coord_accessors_total (u mu : Bool) (pos : Int) (c : List CigarOp) (length : Int) :
-    (Hts.Model.Coord.cigarLengths c).isSome ∧ (Hts.Model.Coord.recordEnd u pos c).isSome ∧
-    (Hts.Model.Coord.recordLen u pos c).isSome ∧ (Hts.Model.Coord.recordBin u mu pos c).isSome ∧
-    (Hts.Model.Coord.cigarIsValid c length).isSome := by
-  obtain ⟨v1, h1⟩ := Hts.Model.Coord.lengthsLoop_total c 0 0
-  obtain ⟨v2, h2⟩ := Hts.Model.Coord.recordEnd_total u pos c
-  obtain ⟨v3, h3⟩ := Hts.Model.Coord.isValidLoop_total c.length c 0 none 0 length
-  refine ⟨?_, ?_, ?_, ?_, ?_⟩
-  · unfold Hts.Model.Coord.cigarLengths; rw [h1]; rfl
-  · rw [h2]; rfl
-  · unfold Hts.Model.Coord.recordLen; rw [h2]; rfl
-  · unfold Hts.Model.Coord.recordBin; rw [h2]; rfl
-  · unfold Hts.Model.Coord.cigarIsValid; rw [h3]; rfl
+/-- `Cigar.Lengths` and `Record.End` (hence `Len` and `Bin`, which add no partial operation) written with
+`Consumes` as the explicit, bounds-checked table look-up never panic, for EVERY CIGAR including operation
+types 10..15, and they compute exactly what the models C16 reasons about compute (whose `Option` results
+are therefore always `some`) -/
+theorem coord_accessors_total (u : Bool) (pos : Int) (c : List CigarOp) :
+    (lengthsGo 0 0 c).isPanic = false ∧ (recordEndGo u pos c).isPanic = false ∧
+    Hts.Model.Coord.cigarLengths c = (match lengthsGo 0 0 c with | ok v => some v | _ => none) ∧
+    Hts.Model.Coord.recordEnd u pos c = (match recordEndGo u pos c with | ok v => some v | _ => none) := by
+  refine ⟨(lengthsGo_eq c 0 0).2, ?_, (lengthsGo_eq c 0 0).1, ?_⟩
+  · unfold recordEndGo
+    split
+    · rfl
+    · exact (endGo_eq c pos pos).2
+  · unfold recordEndGo Hts.Model.Coord.recordEnd
+    split
+    · rfl
+    · exact (endGo_eq c pos pos).1
 
 /-- A_safe for `ParseCigar`: whatever it returns can go through every CIGAR accessor -/
 theorem parseCigar_accessors_safe (b : Bytes) (c : List CigarOp) (_h : parseCigar b = ok c)
-    (u mu : Bool) (pos length : Int) :
+    (u : Bool) (pos length : Int) :
     (cigarIsValidGo c length).isPanic = false ∧ (∀ co ∈ c, (opString co.typ).isPanic = false ∧
       (consumesGo co.typ).isPanic = false) ∧
-    (Hts.Model.Coord.recordEnd u pos c).isSome ∧ (Hts.Model.Coord.recordBin u mu pos c).isSome ∧
-    (Hts.Model.Coord.cigarLengths c).isSome :=
-  have hc := coord_accessors_total u mu pos c length
-  ⟨isValid_total c length, fun co _ => ⟨opString_total co.typ, consumes_total co.typ⟩, hc.2.1, hc.2.2.2.1, hc.1⟩
+    (recordEndGo u pos c).isPanic = false ∧ (lengthsGo 0 0 c).isPanic = false :=
+  have hc := coord_accessors_total u pos c
+  ⟨isValid_total c length, fun co _ => ⟨opString_total co.typ, consumes_total co.typ⟩, hc.2.1, hc.1⟩
 
 /-! ### sam.ParseAux (text) -/
 
@@ -344,7 +350,10 @@ example : parseAuxBam [88, 89, 66, 99, 1] = err := by decide
 example : parseAuxBam [88, 89, 66, 90, 8, 0, 0, 0] = err := by decide
 example : parseAuxBam [88, 0, 90, 1, 0] = err := by decide
 -- CIGAR operation types 11..15 (storable in BAM) go through End/Bin/IsValid
-example : Hts.Model.Coord.recordEnd false 100 [⟨0, 10⟩, ⟨13, 7⟩, ⟨2, 5⟩] = some 115 := by decide
+example : recordEndGo false 100 [⟨0, 10⟩, ⟨13, 7⟩, ⟨2, 5⟩] = ok 115 := by decide
+-- "12": digits without an operation are an error (the scan reaches the end of the text)
+example : parseCigar [49, 50] = err := by decide
+example : parseCigar [42] = ok [] := by decide
 example : cigarIsValidGo [⟨5, 1⟩, ⟨4, 2⟩, ⟨0, 3⟩, ⟨4, 1⟩, ⟨5, 2⟩] 6 = ok true := by decide
 
 example : decodeIdx "itf8.Decode" itf8Width [0xff, 1, 2, 3, 4] = ok true := by decide
